@@ -764,16 +764,21 @@ impl Melda {
             return Ok(None);
         }
         // Automatically resolve conflicts in array_descriptors
+        // (collect first: resolve_as acquires the documents and the revision tree itself)
+        let mut to_resolve = Vec::<(String, String)>::new();
         for (uuid, rt) in self.documents.read().unwrap().iter() {
             if is_array_descriptor(uuid) {
                 let rt_r = rt.lock().expect("cannot_acquire_revision_tree_for_commit");
                 let w = rt_r.get_winner().ok_or_else(|| anyhow!("no_winner"))?;
                 let l = rt_r.get_leafs();
                 if l.len() > 1 {
-                    self.resolve_as(uuid, w.to_string().as_str())
-                        .expect("cannot_automatically_resolve_array_descriptor_conflict");
+                    to_resolve.push((uuid.clone(), w.to_string()));
                 }
             }
+        }
+        for (uuid, w) in to_resolve {
+            self.resolve_as(&uuid, &w)
+                .expect("cannot_automatically_resolve_array_descriptor_conflict");
         }
         // Commit data packs
         let mut data: std::sync::RwLockWriteGuard<'_, DataStorage> =
